@@ -815,7 +815,7 @@ Qed.
 Lemma process_assets_core pr c done : core (process_assets pr c done) = core pr.
 Proof.
   unfold process_assets. apply foldl_core. intros a [[[c' x] v] lst]. cbv beta iota.
-  destruct (_ =? _); reflexivity.
+  destruct (_ =? _); [|reflexivity]. destruct v; reflexivity.
 Qed.
 Lemma sync_detect_core pr t last : core (sync_detect pr t last) = core pr.
 Proof.
@@ -870,7 +870,7 @@ Qed.
 Lemma process_assets_out pr c done : p_out (process_assets pr c done) = p_out pr.
 Proof.
   unfold process_assets. apply foldl_out_eq. intros a [[[c' x] v] lst]. cbv beta iota.
-  destruct (_ =? _); reflexivity.
+  destruct (_ =? _); [|reflexivity]. destruct v; reflexivity.
 Qed.
 Lemma sync_detect_out pr t last : p_out (sync_detect pr t last) = p_out pr.
 Proof.
